@@ -390,7 +390,15 @@ class RunLab(object):
                     st.elem_status[it.name] = sname(it)
                 elif isinstance(it, self.ScenarioOutline):
                     st.elem_kind[it.name] = "outline"
-                    for s in it.scenarios:
+                    try:
+                        rows = list(it.scenarios)
+                    except Exception as ex:
+                        # building the rows of an outline failed with an internal exception: an observation (reported through the
+                        # same channel as an exception that escapes the run), not a reason to stop monitoring
+                        if st.escaped is None:
+                            st.escaped = ex
+                        rows = []
+                    for s in rows:
                         scen(s)
                     st.elem_status[it.name] = sname(it)
                 else:
